@@ -119,7 +119,10 @@ def modest(model, max_drop=0.3):
                     if k in ("PSwitch", "PMux") and not is_active(k, m.phase_conf[n], ph):
                         continue  # sleeping in this phase
                     return False  # the element drops its whole input: not modest
-                if abs(vin) - abs(v[n]) > max_drop * abs(vin) or abs(v[n]) > abs(vin):
+                # signed: the element must keep its polarity (a rectifier: stay positive)
+                out_ = v[n] if k == "Rectifier" else v[n] * (1.0 if vin > 0 else -1.0)
+                drop_ = abs(vin) - out_
+                if drop_ < 0 or drop_ > max_drop * abs(vin):
                     return False
             if k == "LinReg":
                 p_ = m.comps[n]["p"]
